@@ -144,12 +144,20 @@ inductive V
   | obj (kvs : List (Str × V))
   deriving Repr
 
+/-- further keywords of a schema, kept in one record: `default` (none: no default, or `default: null`, which Go
+reads as a nil `Default`), `minProperties` (0 = absent), `maxProperties` -/
+structure Extra where
+  dflt : Option V := none
+  minProps : Nat := 0
+  maxProps : Option Nat := none
+  deriving Repr
+
 /-- the schema fragment: own keywords plus the composition keywords `not`, `oneOf`, `anyOf`, `allOf`, and the
 `default` keyword (a value; it plays no role in satisfaction, only in `visD` below) -/
 inductive RS
   | mk (ty : Option Ty) (nullable ro wo : Bool) (minLen : Nat) (max : Option Int)
        (props : List (Str × RS)) (required : List Str) (addl : Option Bool) (items : Option RS)
-       (nt : Option RS) (oneOf anyOf allOf : List RS) (dflt : Option V)
+       (nt : Option RS) (oneOf anyOf allOf : List RS) (dflt : Extra)
   deriving Repr
 
 namespace RS
@@ -167,12 +175,15 @@ def nt : RS → Option RS | mk _ _ _ _ _ _ _ _ _ _ n _ _ _ _ => n
 def oneOf : RS → List RS | mk _ _ _ _ _ _ _ _ _ _ _ o _ _ _ => o
 def anyOf : RS → List RS | mk _ _ _ _ _ _ _ _ _ _ _ _ a _ _ => a
 def allOf : RS → List RS | mk _ _ _ _ _ _ _ _ _ _ _ _ _ a _ => a
+def extra : RS → Extra | mk _ _ _ _ _ _ _ _ _ _ _ _ _ _ d => d
 /-- the `default` keyword (`none`: no default or `default: null`, which Go reads as a nil `Default`) -/
-def dflt : RS → Option V | mk _ _ _ _ _ _ _ _ _ _ _ _ _ _ d => d
+def dflt (s : RS) : Option V := s.extra.dflt
+def minProps (s : RS) : Nat := s.extra.minProps
+def maxProps (s : RS) : Option Nat := s.extra.maxProps
 /-- a schema without composition keywords -/
 def leaf (ty : Option Ty) (nullable ro wo : Bool) (minLen : Nat) (max : Option Int)
     (props : List (Str × RS)) (required : List Str) (addl : Option Bool) (items : Option RS) : RS :=
-  mk ty nullable ro wo minLen max props required addl items none [] [] [] none
+  mk ty nullable ro wo minLen max props required addl items none [] [] [] {}
 end RS
 
 instance : Inhabited V := ⟨.null⟩
@@ -220,7 +231,7 @@ def hasComp (s : RS) : Bool := !(s.oneOf.isEmpty && s.anyOf.isEmpty && s.allOf.i
 def isEmptyLeaf (s : RS) : Bool :=
   s.ty.isNone && !s.nullable && !s.ro && !s.wo && s.minLen == 0 && s.max.isNone &&
   s.required.isEmpty && s.addl != some false && s.props.isEmpty && s.items.isNone &&
-  s.nt.isNone && s.oneOf.isEmpty && s.anyOf.isEmpty && s.allOf.isEmpty
+  s.nt.isNone && s.oneOf.isEmpty && s.anyOf.isEmpty && s.allOf.isEmpty && s.minProps == 0 && s.maxProps.isNone
 
 /-! #### `visitJSON`: composition layer (recursion over the schema) and own keywords (recursion over the value)
 
@@ -269,8 +280,12 @@ def ownArr (fs : List (RS → Bool)) (s : RS) : Bool :=
 /-- the loop over the value's keys: declared property → its schema; else additionalProperties -/
 def fieldsOK (s : RS) (fs : List (Str × (RS → Bool))) : Bool :=
   fs.all fun kf => match lookup kf.1 s.props with | some p => kf.2 p | none => s.addl != some false
+/-- `minProperties` / `maxProperties` against the number of members (`v != 0 && len < v`, `v != nil && len > *v`) -/
+def countOK (s : RS) (n : Nat) : Bool :=
+  decide (s.minProps ≤ n) && (match s.maxProps with | none => true | some m => decide (n ≤ m))
 def ownObj (exro : Bool) (fs : List (Str × (RS → Bool))) (s : RS) : Bool :=
-  permits s.ty .object && roLoopOK exro s.props (keys fs) && fieldsOK s fs && requiredOK s (keys fs)
+  permits s.ty .object && roLoopOK exro s.props (keys fs) && countOK s fs.length && fieldsOK s fs &&
+  requiredOK s (keys fs)
 
 mutual
 /-- `Schema.visitJSON` with `VisitAsRequest()`; `exro` = `DisableReadOnlyValidation()`. `true` = nil error. -/
@@ -357,6 +372,7 @@ def FieldsSat (s : RS) (Fs : List (Str × (RS → Prop))) : Prop :=
 exclusion option `exro` is set) and need not be present even if required; write-only properties are ordinary -/
 def OwnObj (exro : Bool) (Fs : List (Str × (RS → Prop))) (s : RS) : Prop :=
   (s.ty = none ∨ s.ty = some .object) ∧ FieldsSat s Fs ∧
+  s.minProps ≤ Fs.length ∧ (∀ m, s.maxProps = some m → Fs.length ≤ m) ∧
   (∀ k ∈ s.required, k ∈ keys Fs ∨ isRO (lookup k s.props) = true) ∧
   (exro = false → ∀ k, isRO (lookup k s.props) = true → k ∉ keys Fs)
 
@@ -515,6 +531,7 @@ def ownK (ds exro : Bool) (s : RS) (fProps : List (Str × V) → Option (List (S
   | .arr xs => if permits s.ty .array then (fItems xs).map .arr else none
   | .obj kvs =>
     if permits s.ty .object && roLoopOK exro s.props (keys (injD ds exro s.props kvs)) &&
+       countOK s (injD ds exro s.props kvs).length &&
        addlOKD s (injD ds exro s.props kvs) && requiredOK s (keys (injD ds exro s.props kvs))
     then (fProps (injD ds exro s.props kvs)).map .obj else none
 
@@ -650,7 +667,7 @@ mutual
 def RS.wf : RS → Bool
   | .mk _ _ _ _ _ _ props _ _ items nt oneOf anyOf allOf dflt =>
     nodupKeys (keys props) && wfProps props && wfOpt items && wfOpt nt && wfList oneOf && wfList anyOf &&
-    wfList allOf && wfDflt dflt
+    wfList allOf && wfDflt dflt.dflt
 def wfProps : List (Str × RS) → Bool
   | [] => true
   | (_, p) :: r => p.wf && wfProps r
@@ -666,7 +683,7 @@ mutual
 /-- a `default` occurs somewhere in the schema -/
 def hasDflt : RS → Bool
   | .mk _ _ _ _ _ _ props _ _ items nt oneOf anyOf allOf dflt =>
-    dflt.isSome || hasDfltP props || hasDfltO items || hasDfltO nt || hasDfltL oneOf || hasDfltL anyOf || hasDfltL allOf
+    dflt.dflt.isSome || hasDfltP props || hasDfltO items || hasDfltO nt || hasDfltL oneOf || hasDfltL anyOf || hasDfltL allOf
 def hasDfltP : List (Str × RS) → Bool
   | [] => false
   | (_, p) :: r => hasDflt p || hasDfltP r
@@ -710,20 +727,22 @@ def compFreeO : Option RS → Bool
 end
 
 /-- the properties of one object schema that can receive a default: the default is accepted by the property's own
-schema (read as a request, itself completed), and the property is not listed in `required` -/
-def dfltsHarmlessHere (exro : Bool) (props : List (Str × RS)) (required : List Str)
+schema (read as a request, itself completed), the property is not listed in `required`, and the object schema does
+not count its members (`counted`: minProperties / maxProperties present) -/
+def dfltsHarmlessHere (exro : Bool) (props : List (Str × RS)) (required : List Str) (counted : Bool)
     (accepts : RS → V → Bool) : Bool :=
   props.all fun kp =>
     match dfltFor exro kp.2 with
     | none => true
-    | some d => accepts kp.2 d && !required.contains kp.1
+    | some d => accepts kp.2 d && !required.contains kp.1 && !counted
 
 mutual
 /-- **defaults cannot change the verdict** (composition-free schemas): every default that can be injected, at any
 depth, conforms to its own schema and belongs to a property that is not required -/
 def dfltsHarmless (exro : Bool) : RS → Bool
-  | .mk _ _ _ _ _ _ props req _ items _ _ _ _ _ =>
-    dfltsHarmlessHere exro props req (fun p d => (visD true exro p d).isSome) &&
+  | .mk _ _ _ _ _ _ props req _ items _ _ _ _ dflt =>
+    dfltsHarmlessHere exro props req (dflt.minProps != 0 || dflt.maxProps.isSome)
+      (fun p d => (visD true exro p d).isSome) &&
     dfltsHarmlessP exro props && dfltsHarmlessO exro items
 def dfltsHarmlessP (exro : Bool) : List (Str × RS) → Bool
   | [] => true
